@@ -1,5 +1,6 @@
 (* C01 - build(Config(f, ...)) calls f with exactly the configured arguments. *)
-From Fiddle Require Import PyBase PySlice Sig ArgStore ArgSpec PyCall C01Check AnchorsBuild AnchorsEdit PyCall_proofs.
+From Fiddle Require Import PyBase PySlice Sig ArgStore ArgSpec PyCall C01Check AnchorsBuild AnchorsEdit PyCall_proofs PyCall_more.
+From Coq Require Import List.
 
 (* For every valid signature and every argument store satisfying the C01 storage invariant, what the
    callee observes after Fiddle's transformation + CPython's binding is the reference view: every
@@ -46,3 +47,28 @@ Theorem C01_missing_required_kw :
   build1 ex_sg ex_st_missing_kw = None.
 Proof. exact ex_missing_required_kw. Qed.
 Print Assumptions C01_missing_required_kw.
+
+(* the callee sees every parameter exactly once, in signature order *)
+Theorem C01_view_names_are_parameters : forall sg st vw,
+  valid_sig sg = true -> inv01_b sg st = true -> build1 sg st = Some vw ->
+  map fst vw = map pname sg.
+Proof. exact view_names_are_parameters. Qed.
+Print Assumptions C01_view_names_are_parameters.
+
+(* the build fails EXACTLY when some required (non-variadic, default-less) parameter has no stored value *)
+Theorem C01_fails_iff_required_unset : forall sg st,
+  valid_sig sg = true -> inv01_b sg st = true ->
+  (build1 sg st = None <->
+   exists j p, nth_error sg j = Some p /\ plain_kind p = true /\
+               sget st (pkey p j) = None /\ pdefault p = None).
+Proof. exact build_fails_iff_required_unset. Qed.
+Print Assumptions C01_fails_iff_required_unset.
+
+(* *args is exactly the contiguous stored run from its index; **kwargs exactly the stored extra names *)
+Theorem C01_star_arguments_exact : forall sg st vw j p,
+  valid_sig sg = true -> inv01_b sg st = true -> build1 sg st = Some vw ->
+  nth_error sg j = Some p ->
+  (pk p = VarPos -> nth_error vw j = Some (pname p, PTuple (varargs_of (length st) st j))) /\
+  (pk p = VarKw -> nth_error vw j = Some (pname p, PDict (extras_of sg st))).
+Proof. exact star_arguments_exact. Qed.
+Print Assumptions C01_star_arguments_exact.
